@@ -86,6 +86,11 @@ static std::vector<Whole> c10_wholes() {
     std::vector<Whole> W;
     for (auto sv : {ref::SigVer::BASE, ref::SigVer::WITNESS_V0, ref::SigVer::TAPSCRIPT})
         for (size_t n : {9999, 10000, 10001}) W.push_back({"script of " + std::to_string(n) + " bytes", sv, 0, sized_script(n), {}, {}});
+    // tapscript has no script-size limit at all: leaves far beyond 10,000 bytes (units of <520 bytes> DROP, then OP_1) run to the end
+    for (size_t units : {40, 120, 191, 192, 400, 760}) {     // 40 units = 20,961 bytes ... 192 units = 100,609 bytes ... 760 units = 398,241 bytes
+        bytes s2; bytes p = ref::push_raw(alpha::filler(520)); for (size_t i = 0; i < units; i++) { s2.insert(s2.end(), p.begin(), p.end()); s2.push_back(0x75); } s2.push_back(0x51);
+        W.push_back({"tapscript leaf of " + std::to_string(s2.size()) + " bytes", ref::SigVer::TAPSCRIPT, 0, s2, {}, {}});
+    }
     // successor scriptPubKey of 10000 / 10001 bytes after a scriptSig
     for (size_t n : {10000, 10001}) W.push_back({"scriptPubKey of " + std::to_string(n) + " bytes after scriptSig OP_1", ref::SigVer::BASE, 0, ref::unhex("51"), sized_script(n), {}});
     // op count is per script: scriptSig / scriptPubKey / redeem script each at the limit
